@@ -30,7 +30,7 @@ def corpus():
 
 
 def generate(rng, tier):
-    n = 400 if tier == "quick" else 12000
+    n = 700 if tier == "quick" else 12000
     for _ in range(n):
         root = rng.choice(["cube", "cube", "cube", "seq", "coll"])
         nd = rng.choice([1, 2, 2, 3, 3, 4]) if root == "cube" else rng.choice([2, 3])
